@@ -7,7 +7,8 @@
    - CPark  : a writer parks inside `with tree:` between two groups of mutations while a
               reader runs the recorded program of a snapshot operation;
    - COwner : the owner nests `with tree:` n times, runs the operation inside, a contender
-              probes the lock in the middle and at the end. *)
+              probes the lock in the middle and at the end;
+   - CHist  : the global history recorded from FREE-RUNNING writer and reader threads. *)
 From Coq Require Import List ZArith Bool Arith.
 From NTGen Require Import Generated.
 From NT Require Import Sx RLock Skeleton.
@@ -17,7 +18,8 @@ Inductive case :=
 | CSched (ps : list (list Z)) (sched : list Z)
 | CTrace (label : list Z) (tr : list Z)
 | CPark (label : list Z) (tr : list Z) (nw1 nw2 : Z)
-| COwner (label : list Z) (tr : list Z) (nest : Z).
+| COwner (label : list Z) (tr : list Z) (nest : Z)
+| CHist (ps : list (list Z)) (sched : list Z) (readers : list Z).
 
 Definition ev_of (z : Z) : ev :=
   match z with 0%Z => EAcq | 1%Z => ERel | 2%Z => ERead | _ => EWrite end.
@@ -127,4 +129,12 @@ Definition run18 (c : case) : sx :=
       L [trace_obs label (prog_of_z tr); run_park (prog_of_z tr) (nat_of nw1) (nat_of nw2)]
   | COwner label tr nest =>
       L [trace_obs label (prog_of_z tr); run_owner (prog_of_z tr) (nat_of nest)]
+  | CHist ps sched readers =>
+      (* a history recorded from free-running threads, replayed: it must be a behaviour of the machine
+         (every recorded tick enabled, all programs consumed) and the versions the readers saw must be
+         the machine's *)
+      let s := run (map nat_of sched) (init (map prog_of_z ps)) in
+      L [sx_bool (finished s); sx_bool (length (log s) =? length sched);
+         sx_bool (forallb bracketed (map prog_of_z ps));
+         sx_list (fun t => sx_list sx_nat (dedup (reads_seen (nat_of t) s))) readers]
   end.
